@@ -111,6 +111,7 @@ fn cmd_one(args: &[String]) -> i32 {
 
 fn main() {
     silence_panics();
+    alloc::install_fatal_handlers();
     let args: Vec<String> = std::env::args().skip(1).collect();
     let code = match args.first().map(|s| s.as_str()) {
         Some("cases") => cmd_cases(&args[1..]),
